@@ -90,6 +90,10 @@ pub enum Mut {
     /// the canonical request of another step and, behind it in the same write, the canonical request
     /// of this position: the first reply group must be an error, the second must pass
     PipelinedWrongStep { send: usize },
+    /// the canonical request of another step is first sent on a second connection whose peer never
+    /// reads and then goes away (the reply write fails on the server), then again on the client's own
+    /// connection: it is a step out of order both times
+    WrongStepAfterFailedReply { send: usize },
     /// the whole canonical sequence including End is walked first; then the canonical request of
     /// step `send` (Test01..Test11) is sent under the finished client id: a step out of order
     AfterEnd { send: usize },
@@ -338,7 +342,7 @@ fn apply(req: &mut Value, m: &Mut) {
         Mut::SetParams(v) => {
             req.as_object_mut().unwrap().insert("parameters".into(), v.clone());
         }
-        Mut::WrongStep { .. } | Mut::WrongStepThen { .. } | Mut::PipelinedWrongStep { .. } | Mut::AfterEnd { .. } | Mut::Duplicate | Mut::Race { .. } => {}
+        Mut::WrongStep { .. } | Mut::WrongStepThen { .. } | Mut::PipelinedWrongStep { .. } | Mut::WrongStepAfterFailedReply { .. } | Mut::AfterEnd { .. } | Mut::Duplicate | Mut::Race { .. } => {}
     }
 }
 
@@ -560,7 +564,7 @@ pub fn run_q(case: &QCase) -> (SimEnd, crate::sched::SimStats, QObs) {
                 Err(e) => ob.prefix_failed = Some(e),
                 Ok((client_id, prev, strings)) => {
                     let mut req = match &d.m {
-                        Mut::WrongStep { send } | Mut::WrongStepThen { send } | Mut::PipelinedWrongStep { send } => {
+                        Mut::WrongStep { send } | Mut::WrongStepThen { send } | Mut::PipelinedWrongStep { send } | Mut::WrongStepAfterFailedReply { send } => {
                             canonical_request(*send, &client_id, &prev, &strings)
                         }
                         // (Test02's canonical argument is the fixed reply of Test01)
@@ -572,6 +576,21 @@ pub fn run_q(case: &QCase) -> (SimEnd, crate::sched::SimStats, QObs) {
                     };
                     apply(&mut req, &d.m);
                     let silent_ok = req.get("oneway") == Some(&json!(true));
+                    if let Mut::WrongStepAfterFailedReply { .. } = &d.m {
+                        // the same request on a connection whose peer has a window of a few bytes and
+                        // never reads: the worker blocks in the reply write; then the peer is gone
+                        let other = net.connect(ConnOpts { s2c_cap: 6, ..Default::default() });
+                        let mut b = serde_json::to_vec(&req).unwrap();
+                        b.push(0);
+                        net.client_send(other, &b);
+                        wait_quiescent(&ctl);
+                        if di % 2 == 0 {
+                            net.client_reset(other);
+                        } else {
+                            net.client_close(other);
+                        }
+                        wait_quiescent(&ctl);
+                    }
                     match &d.m {
                         Mut::PipelinedWrongStep { .. } => {
                             let due = canonical_request(d.step, &client_id, &prev, &strings);
@@ -1091,6 +1110,14 @@ pub fn deviation_space(canon_params: &[Value]) -> Vec<Deviation> {
         for send in 1..13 {
             if send != step {
                 v.push(Deviation { step, m: Mut::WrongStep { send } });
+            }
+        }
+        // an out-of-order step whose refusal could not be delivered, then the same step again
+        if step >= 2 && step != 11 {
+            for send in [1usize, 12] {
+                if send != step && send + 1 != step {
+                    v.push(Deviation { step, m: Mut::WrongStepAfterFailedReply { send } });
+                }
             }
         }
         // an out-of-order step with the step that is due right behind it in the same write
